@@ -135,7 +135,9 @@ func c08Check(L *ev.Layer, cfg c08Cfg, conn c08Conn, v c08Hdrs, reqHost, peerIP,
 	fail := func(kind string) { L.Violation(kind+flags, d) }
 
 	// 1. configured client-ip header is overwritten with the real peer address
-	if cfg.clientIP != "" && cfg.clientIP != "X-Real-Ip" && cfg.clientIP != "X-Forwarded-For" {
+	// (also when the operator names X-Real-Ip as that header: "unless the client already sent one" is the rule for an
+	// X-Real-Ip nobody configured; a header the upstream is told to trust must not be the client's to choose)
+	if cfg.clientIP != "" && cfg.clientIP != "X-Forwarded-For" {
 		if got := s.Header[http.CanonicalHeaderKey(cfg.clientIP)]; len(got) != 1 || got[0] != peerIP {
 			fail("client-ip-header-not-overwritten")
 		}
